@@ -9,7 +9,14 @@ PROPS = {}
 
 PROPS["C02"] = {
     "programs": {
-        "quick": [P("hamt", "VerifHashBitsNext", must_reach=("end", "too-deep"))],
+        "quick": [P("hamt", "VerifHashBitsNext", must_reach=("end", "too-deep")),
+                  P("hamt", "VerifHashBitsStep", must_reach=("end", "too-deep")),
+                  P("data/builder", "VerifBuilderSlice", must_reach=("end", "too-deep")),
+                  P("data/builder", "VerifLogTwo", must_reach=("end", "rejected")),
+                  P("hamt", "VerifCheckLogTwo"), P("hamt", "VerifMkmask"),
+                  P("hamt", "VerifBitfieldLaws", nb=1), P("hamt", "VerifBitfieldLaws", nb=2),
+                  P("hamt", "VerifBitfieldSetBit", nb=2),
+                  ],
     },
     "bounds": {"quick": "K1: all 2^64 hashes x log2(fanout) 3..10 x depth 0..21"},
     "assumptions": [],
